@@ -44,7 +44,7 @@ def bad(node, why: str):
 COQ_KEYWORDS = {"at", "as", "end", "in", "match", "return", "with", "fix", "let", "using", "then", "else", "if", "fun", "forall", "exists",
                 "Type", "Set", "Prop", "where", "struct", "for", "cofix", "IF", "by", "do", "is", "of", "mod", "self_"}
 EXNS = {"KeyError", "IndexError", "AssertionError", "TypeError", "ValueError", "JellyConformanceError", "JellyAssertionError",
-        "JellyNotImplementedError", "StopIteration", "NotImplementedError", "ZeroDivisionError", "BaseException", "AttributeError"}
+        "JellyNotImplementedError", "StopIteration", "NotImplementedError", "ZeroDivisionError", "BaseException", "AttributeError", "OutsideModel"}
 
 
 ENUM_TYPES: dict[str, dict[str, int]] = {}  # filled from the descriptor in rdf_pb2.py by translate_unit
@@ -55,6 +55,9 @@ OPAQUE: set[str] = set()
 NAMEDTUPLES: set[str] = set()
 FROZEN: set[str] = set()  # classes declared @dataclass(frozen=True): their instances are never changed in place
 TYPE_ALIASES: dict[str, ast.AST] = {}  # `X: TypeAlias = ...` of the module being translated
+DYN: dict[str, list] = {}  # classes of dynamic values (dyn.py): class -> [(field, type, optional)]
+DYN_SINGLETONS: dict[str, str] = {}  # instance name -> its class
+DYN_ANY_NAMES: set[str] = set()  # annotations that denote a dynamic value
 
 
 def mangle(name: str) -> str:
@@ -172,8 +175,10 @@ def ann_type(a, classes) -> object:
             return a.id
         if a.id == "bytes":
             return ("seq", "int")
-        if a.id in ("object", "Any"):
+        if a.id in ("object", "Any") or a.id in DYN_ANY_NAMES:
             return "any"
+        if a.id == "Never":
+            return "none"
         if a.id == "pbany":
             return ("pb", "*")
         if a.id in ENUM_TYPES:
@@ -216,6 +221,8 @@ def ann_type(a, classes) -> object:
             return ("opt", r)
         if isinstance(l, tuple) and isinstance(r, tuple) and l[0] == r[0] == "pb":
             return ("pb", l[1] + "|" + r[1])
+        if DYN and "any" in (l, r) and all(x in ("any", "str") for x in (l, r)):
+            return "any"  # a str is a dynamic value too (O_str)
         bad(a, "union annotation")
     if isinstance(a, ast.Subscript) and isinstance(a.value, ast.Name) and a.value.id == "deque":
         return ("seq", ann_type(a.slice, classes))
@@ -637,6 +644,8 @@ class Mode:
             if getattr(self, "cur_exc", None) is None:
                 bad(s, "bare raise outside an except clause")
             return self.on_exn(self.cur_exc)
+        if isinstance(s, ast.Raise) and isinstance(s.exc, ast.Name) and s.exc.id in EXNS and s.cause is None and s.exc.id not in env:
+            return self.on_exn(s.exc.id)  # raise X: the class is instantiated without arguments
         if isinstance(s, ast.Raise):
             if (s.cause is not None and not (isinstance(s.cause, ast.Constant) and s.cause.value is None)) \
                     or not (isinstance(s.exc, ast.Call) and isinstance(s.exc.func, ast.Name) and s.exc.func.id in EXNS):
@@ -1045,6 +1054,13 @@ class Mode:
     def coerce(self, v, t, want, node):
         if compat(t, want):
             return v
+        if DYN and want == "any":
+            if t == "none":
+                return "O_None"
+            if t == ("opt", "any"):
+                return f"(opt_obj {v})"
+            if t == "str":
+                return f"(O_str {v})"
         if isinstance(want, tuple) and want[0] == "opt":
             if t == "none":
                 return "None"
@@ -1083,6 +1099,27 @@ class Mode:
         if isinstance(e, ast.Name) and e.id not in env and e.id in getattr(tr, "class_tags", {}):
             root, tag = tr.class_tags[e.id]
             return k(tag, ("cls", root))
+        if isinstance(e, ast.Name) and e.id not in env and e.id in DYN_SINGLETONS:
+            return k(f"O_{DYN_SINGLETONS[e.id]}", "any")
+        if isinstance(e, ast.List) and e.elts:
+            def go_l(rest, vs, ts):
+                if not rest:
+                    t0 = ts[0]
+                    if any(t != t0 for t in ts):
+                        bad(e, "a list of values of several types")
+                    return k("[" + "; ".join(vs) + "]", ("seq", t0))
+                return self.expr(rest[0], env, lambda v, t: go_l(rest[1:], vs + [v], ts + [t]))
+            return go_l(list(e.elts), [], [])
+        if isinstance(e, ast.Attribute) and isinstance(e.value, ast.Name) and env.get(e.value.id) == "any" and DYN:
+            import dyn
+            cs = dyn.classes_with_field(e.attr)
+            if len(cs) != 1:
+                bad(e, f"attribute {e.attr} of a dynamic value: {len(cs)} classes have it")
+            fs = DYN[cs[0]]
+            pats = " ".join((f"f__{n}" if n == e.attr else "_") for n, _, _ in fs)
+            ft = next(t for n, t, _ in fs if n == e.attr)
+            return (f"match {mangle(e.value.id)} with\n| O_{cs[0]} {pats} =>\n{k(f'f__{e.attr}', ft)}\n"
+                    f"| _ => {self.on_exn('AttributeError')}\nend")
         if isinstance(e, ast.Name):
             if e.id in env:
                 if env[e.id] == "errmsg":
@@ -1150,9 +1187,10 @@ class Mode:
                     bad(e, f"and/or on {at}, {bt}")
                 return self.expr(e.values[1], env, second)
             return self.expr(e.values[0], env, both)
+        if isinstance(e, ast.IfExp) and not (is_pure(e.body) and is_pure(e.orelse)):
+            # a branch with an effect: evaluated only when chosen; what follows is repeated in both branches
+            return self.cond(e.test, env, lambda c: f"if {c} then\n{self.expr(e.body, env, k)}\nelse\n{self.expr(e.orelse, env, k)}")
         if isinstance(e, ast.IfExp):
-            if not (is_pure(e.body) and is_pure(e.orelse)):
-                bad(e, "effect inside a conditional expression")
 
             def k_c(c):
                 def k_a(a, at):
@@ -1318,7 +1356,15 @@ class Mode:
             if not rest:
                 return k(acc)
             (ex, pt) = rest[0]
-            return self.expr(ex, env, lambda v, t: go(rest[1:], acc + [self.coerce(v, t, pt, call)]))
+
+            def k_arg(v, t):
+                if DYN and t == "any" and pt == "str":
+                    # a dynamic value where a str is expected: Python checks nothing; the translation covers the case
+                    # that it is a str and marks the other as outside the model
+                    s_ = self.tr.gensym("s")
+                    return f"match {v} with\n| O_str {s_} =>\n{go(rest[1:], acc + [s_])}\n| _ => {self.on_exn('OutsideModel')}\nend"
+                return go(rest[1:], acc + [self.coerce(v, t, pt, call)])
+            return self.expr(ex, env, k_arg)
         return go(exprs, [])
 
     def call_static(self, fname, e, params, ret, env, k, with_self=False) -> str:
@@ -1424,6 +1470,52 @@ class Mode:
                     return k(f"(seq_len {v})", "int")
                 bad(e, "len of this type")
             return self.expr(e.args[0], env, k_len)
+        # constructors of dynamic values (dyn.py)
+        if isinstance(f, ast.Name) and f.id in DYN and f.id not in env:
+            fs = DYN[f.id]
+            if len(e.args) == 1 and isinstance(e.args[0], ast.Starred) and not e.keywords:
+                def k_star(v, t):
+                    if not (isinstance(t, tuple) and t[0] in ("seq", "iter") and t[1] == "any") or not all(ft == "any" for _, ft, _ in fs):
+                        bad(e, "starred constructor arguments")
+                    xs = [tr.gensym("a") for _ in fs]
+                    return (f"match {v} with\n| [" + "; ".join(xs) + f"] =>\n{k('(O_' + f.id + ' ' + ' '.join(xs) + ')', 'any')}\n"
+                            f"| _ => {self.on_exn('TypeError')}\nend")
+                return self.expr(e.args[0].value, env, k_star)
+            if any(isinstance(a, ast.Starred) for a in e.args):
+                bad(e, "starred argument")
+            given = {kw.arg: kw.value for kw in e.keywords}
+            actuals = []
+            for i, (n, ft, opt_) in enumerate(fs):
+                pn = n.lstrip("_")
+                a = e.args[i] if i < len(e.args) else given.pop(pn, given.pop(n, None))
+                if a is None and not opt_:
+                    bad(e, f"missing constructor argument {n}")
+                actuals.append((a if a is not None else ast.Constant(value=None), ft))
+            if given or len(e.args) > len(fs):
+                bad(e, "constructor arguments")
+
+            def go_c(rest, acc):
+                if not rest:
+                    return k("(O_" + f.id + "".join(" " + a for a in acc) + ")", "any")
+                (ex_, ft_) = rest[0]
+                return self.expr(ex_, env, lambda v, t: go_c(rest[1:], acc + [self.coerce(v, t, ft_, e)]))
+            return go_c(actuals, [])
+        # itertools.chain(a, b) of sequences of dynamic values
+        if isinstance(f, ast.Name) and f.id == "chain" and DYN and len(e.args) == 2 and not e.keywords:
+            def as_list(v, t):
+                if isinstance(t, tuple) and t[0] in ("seq", "iter") and t[1] == "any":
+                    return v
+                if isinstance(t, tuple) and t[0] in ("seq", "iter") and t[1] == ("opt", "any"):
+                    return f"(map opt_obj {v})"
+                bad(e, f"chain of {t}")
+            return self.expr(e.args[0], env, lambda a, at: self.expr(e.args[1], env, lambda b, bt: k(f"({as_list(a, at)} ++ {as_list(b, bt)})", ("seq", "any"))))
+        if isinstance(f, ast.Name) and f.id == "isinstance" and len(e.args) == 2 and not e.keywords and isinstance(e.args[0], ast.Name) \
+                and env.get(e.args[0].id) == "any" and DYN:
+            cls_nodes = e.args[1].elts if isinstance(e.args[1], ast.Tuple) else [e.args[1]]
+            if not all(isinstance(c, ast.Name) and c.id in DYN for c in cls_nodes):
+                bad(e, "isinstance class")
+            x_ = mangle(e.args[0].id)
+            return k("(" + " || ".join(f"is_O_{c.id} {x_}" for c in cls_nodes) + ")", "bool")
         # constructors of a class of a family (keyword arguments; None for the optional ones left out)
         if isinstance(f, ast.Name) and f.id in getattr(tr, "ctor_params", {}) and not e.args:
             params = tr.ctor_params[f.id]
@@ -1674,6 +1766,8 @@ class MethodMode(Mode):
             return self.wrap("Val tt")
         if isinstance(self.ret, tuple) and self.ret[0] == "opt":
             return self.wrap("Val None")
+        if self.ret == "any" and DYN:
+            return self.wrap("Val O_None")
         bad(None, f"{self.info.name}: a method returning {self.ret} can end without a return")
 
     def read_field(self, f):
@@ -1822,6 +1916,20 @@ UNITS = {
                           "return_types": {"decode_statement": "list[Any]"},
                           "yield_types": {"iter_rows": "Any | None"},
                           "skip": []}]},
+    # the generic integration's adapters (what the Decoder calls back): the Adapter base class of decode.py and its five
+    # subclasses as one family; the terms of generic_sink.py as the dynamic values
+    "generic_parse": {"src": "pyjelly/integrations/generic/parse.py", "ctx": True, "uses": ["lookup_dec", "options", "decode"],
+                      "uses_only": {"decode": ["ParserOptions"], "lookup_dec": []}, "gen": "GenericParseGen",
+                      "items": [
+                          {"dyn": "obj", "src": "pyjelly/integrations/generic/generic_sink.py",
+                           "classes": ["IRI", "BlankNode", "Literal", "Triple", "Quad", "Prefix"], "singletons": {"DefaultGraph": "_DefaultGraph"}},
+                          {"function": "_adapter_missing", "src": "pyjelly/parse/decode.py"},
+                          {"family": "Adapter", "extra_src": ["pyjelly/parse/decode.py"], "anchor": "GenericStatementSinkAdapter",
+                           "classes": ["Adapter", "GenericStatementSinkAdapter", "GenericTriplesAdapter", "GenericQuadsBaseAdapter",
+                                       "GenericQuadsAdapter", "GenericGraphsAdapter"],
+                           "skip_fields": ["parsing_mode"], "drop_params": ["parsing_mode"],
+                           # (the source annotates the decoded IRI handed to namespace_declaration as `str` in the base class)
+                           "param_types": {"namespace_declaration.iri": "Any"}}]},
     "encode": {"src": "pyjelly/serialize/encode.py", "ctx": True, "uses": ["lookup_enc", "options"], "gen": "EncodeGen",
                "items": ["split_iri", ("TermEncoder", ["__init__", "start_statement", "_entry_index", "encode_iri_indices", "encode_iri",
                                                        "encode_default_graph", "encode_literal"], ["encode_spo", "encode_graph"]),
@@ -1839,7 +1947,7 @@ def item_name(n):
     return None
 
 
-def ctx_analysis(out: list[str], imported: dict[str, list[str]], any_ctx: bool, inherited: list[tuple[str, str]] = ()) -> tuple[dict[str, list[str]], list[str], list[tuple[str, str]]]:
+def ctx_analysis(out: list[str], imported: dict[str, list[str]], any_ctx: bool, inherited: list[tuple[str, str]] = (), dyn: bool = False) -> tuple[dict[str, list[str]], list[str], list[tuple[str, str]]]:
     """Which section variables each definition depends on -- they become its leading arguments, in declaration
     order, once the section is closed (S first; T is implicit; then any_eqb and the virtual methods).
     Returns (dependencies of every definition, record constructors / projections for which S is made implicit,
@@ -1862,7 +1970,7 @@ def ctx_analysis(out: list[str], imported: dict[str, list[str]], any_ctx: bool, 
         if CTX_TOKENS.search(body):
             d.add("S")
         if re.search(r"\bT\b", body):
-            d.add("T")
+            d.add("S" if dyn else "T")  # in a unit with dynamic values T is the generated type obj, which is over K
         for v in order:
             if v not in ("S", "T") and re.search(r"(?<![\w.])" + re.escape(v) + r"\b", body):
                 d |= var_deps[v] | {v}
@@ -1890,10 +1998,13 @@ def ctx_analysis(out: list[str], imported: dict[str, list[str]], any_ctx: bool, 
             order.append(v)
             decls.append((v, item))
             continue
-        m = re.match(r"(Record|Definition|Inductive) (\w+)", item)
+        m = re.match(r"(Record|Definition|Inductive|Fixpoint) (\w+)", item)
         if not m:
             continue
         d = scan(item[m.end():])
+        if m.group(1) == "Inductive" and d:
+            for c in re.findall(r"^\| (\w+)", item, flags=re.M):  # constructors
+                deps[c] = d
         if not d:
             continue
         deps[m.group(2)] = d
@@ -1930,6 +2041,20 @@ def run_unit(repo: Path, unit: str) -> tuple["Translator", set[str], list[str]]:
     tr.import_decls: list[tuple[str, str]] = []
     for dep in u["uses"]:
         dtr, dinfo = run_unit(repo, dep)
+        only = u.get("uses_only", {}).get(dep)  # import only the named classes of that unit (none of its section variables)
+        if only is not None:
+            tr.classes.update({c: v for c, v in dtr.classes.items() if c in only})
+            for n in sorted(dinfo["deps"]):
+                if not any(n == c or n == f"mk_{c}" or n.startswith(f"{c}_") or n.startswith(f"set_{c}_") for c in only):
+                    continue
+                if n in dinfo["implicit"] and dinfo["deps"][n] == ["S"]:
+                    continue
+                vs = dinfo["deps"][n]
+                if vs != ["S"]:
+                    bad(None, f"{dep}.{n} depends on section variables: not importable alone")
+                tr.abbrev_s.append(f"Notation {n} := ({UNITS[dep]['gen']}.{n} S).")
+                imported[n] = vs
+            continue
         tr.classes.update(dtr.classes)
         tr.functions.update(dtr.functions)
         for attr in ("families", "class_tags", "ctor_params"):
@@ -1954,13 +2079,29 @@ def run_unit(repo: Path, unit: str) -> tuple["Translator", set[str], list[str]]:
     # re-establish this unit's globals (a dependency run overwrote them)
     TYPE_ALIASES.clear()
     INT_ENUMS.clear()
+    DYN.clear()
+    DYN_SINGLETONS.clear()
+    DYN_ANY_NAMES.clear()
     items = u["items"]
+    dyn_specs = [i for i in (items or []) if isinstance(i, dict) and "dyn" in i]
+    ext_funcs = [i for i in (items or []) if isinstance(i, dict) and "function" in i]
+    items = None if items is None else [i for i in items if not (isinstance(i, dict) and ("dyn" in i or "function" in i))]
+    for spec in dyn_specs:
+        import dyn
+        tr.out.append(f"(* ---- dynamic values ({spec['src']}): {', '.join(spec['classes'])}; {', '.join(spec.get('singletons', {}))} *)")
+        dyn.add_dyn(tr, repo, spec)
+    for spec in ext_funcs:  # a function of another module that the unit's classes call
+        fn = next((n for n in ast.parse((repo / spec["src"]).read_text()).body if isinstance(n, ast.FunctionDef) and n.name == spec["function"]), None)
+        if fn is None:
+            bad(None, f"{spec['src']} no longer defines {spec['function']}")
+        tr.out.append(f"(* ---- def {fn.name} ({spec['src']}) *)")
+        add_function(tr, fn)
     tr.consts.update(module_consts(f))
     opaque_specs = {i["opaque"]: i for i in (items or []) if isinstance(i, dict) and "opaque" in i}
     items = None if items is None else [i for i in items if not (isinstance(i, dict) and "opaque" in i)] + list(opaque_specs)
     fam_specs = [i for i in (items or []) if isinstance(i, dict)]
     fam_classes = {c: spec for spec in fam_specs for c in spec["classes"]}
-    items = None if items is None else [i for i in items if not isinstance(i, dict)] + [spec["classes"][0] for spec in fam_specs]
+    items = None if items is None else [i for i in items if not isinstance(i, dict)] + [spec.get("anchor", spec["classes"][0]) for spec in fam_specs]
     names = None if items is None else [i if isinstance(i, str) else i[0] for i in items]
     for i in items or []:
         if not isinstance(i, str):
@@ -2031,7 +2172,10 @@ def run_unit(repo: Path, unit: str) -> tuple["Translator", set[str], list[str]]:
             import family
 
             spec = fam_classes[n.name]
-            nodes = [x for x in mod.body if isinstance(x, ast.ClassDef) and x.name in spec["classes"]]
+            extra = []
+            for esrc in spec.get("extra_src", []):  # base classes defined in another module
+                extra += [x for x in ast.parse((repo / esrc).read_text()).body if isinstance(x, ast.ClassDef) and x.name in spec["classes"]]
+            nodes = extra + [x for x in mod.body if isinstance(x, ast.ClassDef) and x.name in spec["classes"]]
             if [x.name for x in nodes] != spec["classes"]:
                 bad(n, f"{rel} no longer defines the classes {spec['classes']} in that order")
             tr.out.append(f"(* ---- class family {spec['family']} ({rel}): {', '.join(spec['classes'])} *)")
@@ -2065,8 +2209,9 @@ def run_unit(repo: Path, unit: str) -> tuple["Translator", set[str], list[str]]:
             tr.int_sets[item_name(n)] = list(n.value.elts)
         else:
             bad(n, "module-level item")
-    any_ctx = bool(u["ctx"]) and (tr.uses_any or any(re.search(r"\bT\b", o) for o in tr.out) or any(v == "T" for v, _ in tr.import_decls))
-    deps, implicit, decls = ctx_analysis(tr.out, imported, any_ctx, tr.import_decls) if u["ctx"] else ({}, [], [])
+    any_ctx = bool(u["ctx"]) and not getattr(tr, "dyn", False) and (
+        tr.uses_any or any(re.search(r"\bT\b", o) for o in tr.out) or any(v == "T" for v, _ in tr.import_decls))
+    deps, implicit, decls = ctx_analysis(tr.out, imported, any_ctx, tr.import_decls, dyn=getattr(tr, "dyn", False)) if u["ctx"] else ({}, [], [])
     return tr, {"deps": deps, "implicit": implicit, "decls": decls, "any": any_ctx}
 
 
